@@ -50,18 +50,21 @@ def c01(case, obs):
 
 
 def c18(case, obs):
-    """per operation: events and, per call, whether it is well shaped (non-empty slices; no slices only with end)"""
+    """per operation: the delivered events (so that resets at arbitrary points and the fresh-reader clause are observed)
+    and whether every call of that operation was well shaped (non-empty slices; no slices only with end); how the
+    bytes of one operation are split into calls and slices is not part of the property"""
     if not case.startswith("annexb"):
         return obs
     out = []
     for grp in annexb_groups(obs):
-        o = []
+        ev = []
+        shaped = True
         for c in grp:
             bufs, end = c.split(";")
             sl = bufs.split(",") if bufs else []
-            shaped = all(s for s in sl) and (sl or end == "1")
-            o.append("".join(sl) + ("E" if end == "1" else "") + ("" if shaped else "!ILLSHAPED"))
-        out.append("[" + " ".join(o) + "]")
+            shaped = shaped and all(s for s in sl) and bool(sl or end == "1")
+            ev.append("".join(sl) + ("E" if end == "1" else ""))
+        out.append("[" + "".join(ev) + ("" if shaped else "!ILLSHAPED") + "]")
     return " ".join(out)
 
 
@@ -138,3 +141,102 @@ def c03(case, obs):
     if obs in ("PANIC", "ABORT") or "PANIC" in obs:
         return "PANIC"
     return "returned"
+
+
+def c02(case, obs):
+    """robust observable of the streaming reader: all bytes taken out of it (reads, consumed parts of fills, the final
+    drain), the kinds of errors met, and how the drain ended - not how many bytes each individual call returned"""
+    t = case.split()
+    if t[0] != "rbsp":
+        return obs
+    delivered = []
+    last_fill = ""
+    errs = []
+    tail = []
+    drained = False
+    for op, o in zip(t[4:], obs.split(" ")):
+        if drained:
+            tail.append(o)          # behaviour after the end was reached is part of the observable
+            continue
+        if o.startswith("ok:"):
+            if op.startswith("f"):
+                last_fill = o[3:]
+            else:
+                delivered.append(o[3:])
+                last_fill = last_fill[len(o[3:]):]
+        elif o.startswith("c"):
+            k = 2 * int(o[1:])
+            delivered.append(last_fill[:k])
+            last_fill = last_fill[k:]
+        elif o.startswith("D:"):
+            _, got, status = o.split(":")
+            delivered.append(got)
+            errs.append("D=" + status)
+            drained = True
+        elif o.startswith("err:"):
+            # when the end is reached depends on how much each call returned; the drain status below records it
+            if o == "err:InvalidData" and o not in errs:
+                errs.append(o)
+    return "".join(delivered) + " " + ",".join(errs) + " " + " ".join(tail)
+
+
+def _unhex(h):
+    return bytes.fromhex(h) if h and h != "-" else b""
+
+
+def rbsp_valid(payload):
+    """reference validity of an escaped payload: no 00 00 00, and 00 00 03 only before a byte <= 3 or the end"""
+    z = 0
+    i = 0
+    n = len(payload)
+    while i < n:
+        b = payload[i]
+        if z >= 2:
+            if b == 0:
+                return False
+            if b == 3:
+                if i + 1 < n and payload[i + 1] > 3:
+                    return False
+                z = 0
+                i += 1
+                continue
+        z = z + 1 if b == 0 else 0
+        i += 1
+    return True
+
+
+def _nal_of(chunks):
+    return b"".join(_unhex(c) for c in chunks.split(","))
+
+
+_c02_plain = c02
+
+
+def c02(case, obs):
+    """for a payload with a forbidden sequence how many bytes come out before InvalidData depends on the scan window
+    (the property only demands: nothing past the offending position) - compare only the statuses there"""
+    t = case.split()
+    if t[0] == "rbsp":
+        nal = _nal_of(t[1])
+        if not rbsp_valid(nal[int(t[3]):]):
+            # every path must report InvalidData; when it does so relative to the other calls is window-dependent
+            return "INVALID reported=" + str("InvalidData" in obs)
+    return _c02_plain(case, obs)
+
+
+def c10(case, obs):
+    t = case.split()
+    if t[0] == "sei" and not rbsp_valid(_nal_of(t[1])[1:]):
+        toks = obs.split(" ")
+        k = 0
+        while k < len(toks) and toks[k].startswith("msg:"):
+            k += 1
+        return "INVALID " + " ".join(x if not x.startswith("err:Io(") else "err:Io(*," + x.split(",")[-1] for x in toks[k:])
+    return obs
+
+
+def c17(case, obs):
+    t = case.split()
+    if t[0] == "nal" and not rbsp_valid(_nal_of(t[1])[1:]):
+        return "INVALID"
+    return obs
